@@ -95,10 +95,6 @@ impl<'a> Enc<'a> {
         i32::try_from(n).map_err(|_| EncErr::LengthTooLarge)
     }
 
-    fn len_u32(n: usize) -> Result<u32, EncErr> {
-        u32::try_from(n).map_err(|_| EncErr::LengthTooLarge)
-    }
-
     fn shape<T>(ty: &Ty, v: &Val) -> Result<T, EncErr> {
         Err(EncErr::Shape(format!("{} vs {}", ty.render(), v.render(80))))
     }
@@ -298,7 +294,8 @@ impl<'a> Enc<'a> {
             },
             Ty::Bytes | Ty::BigInt => match v {
                 Val::Bytes(b) => {
-                    let n = Self::len_u32(b.len())?;
+                    // a 31-bit count like every other length of the format, written as an unsigned varint
+                    let n = Self::len_i32(b.len())? as u32;
                     self.vu(n);
                     self.out.extend_from_slice(b);
                     Ok(())
@@ -307,7 +304,8 @@ impl<'a> Enc<'a> {
             },
             Ty::ByteArray(n) => match v {
                 Val::Bytes(b) if b.len() == *n => {
-                    let n = Self::len_u32(b.len())?;
+                    // a 31-bit count like every other length of the format, written as an unsigned varint
+                    let n = Self::len_i32(b.len())? as u32;
                     self.vu(n);
                     self.out.extend_from_slice(b);
                     Ok(())
